@@ -193,6 +193,10 @@ class Exec:
             f = f.fget
         if isinstance(f, (classmethod, staticmethod)):
             f = f.__func__
+        if getattr(f, '__closure__', None) and f.__code__.co_name == 'g' and 'DOCKING_WARNINGS' in f.__code__.co_names:
+            # @ignore_docking_warnings: the wrapper only switches the global warning flag around the call (dropped, like warn)
+            inner = [c.cell_contents for c in f.__closure__ if callable(c.cell_contents)]
+            if len(inner) == 1: f = inner[0]
         key = (owner.__name__, name)
         if key not in self.src_cache:
             src = textwrap.dedent(inspect.getsource(f))
@@ -374,6 +378,10 @@ class Exec:
                 heap.llen = z3.Store(heap.llen, S, n_old - (hi - lo) + n_src)
                 return
             if isinstance(o, Ref) and o.cls in ('Inlets', 'Outlets'):
+                if isinstance(k, SliceV) and self.contracts.get('slice_assign') is not None:
+                    # modular step: the caller is checked against the CONTRACT of the slice assignment (its requires become
+                    # obligations here, its ensures are all that is known afterwards), not against its body
+                    self.contracts['slice_assign'](self, o, k, v, heap, getattr(t, 'lineno', 0)); return
                 self.call_method(o.cls, '__setitem__', o, [k, v], heap, depth + 1); return
             raise Unsupported('subscript store')
         raise Unsupported(f'assignment target {type(t).__name__}')
@@ -437,6 +445,7 @@ class Exec:
             vx = z3.substitute(v, (e, x))
             setattr(heap, f, z3.Lambda([x], z3.If(inlist, vx, z3.Select(old, x))))
 
+    contracts = {}           # contracts of callees that are applied instead of inlining their bodies (set by the driver)
     loop_contract = None     # set by the driver for methods whose loops need an inductive invariant
     cands_now = None         # candidate witnesses for the goal form of I2 that belong to the heap currently in force
 
@@ -585,6 +594,8 @@ class Exec:
         if isinstance(n, ast.Call):
             return self.call(n, env, heap, depth)
         if isinstance(n, ast.Tuple):
+            if not n.elts:
+                return ExtSeq(z3.IntVal(0), z3.K(I, z3.IntVal(0)))
             vs = [self.expr(e, env, heap, depth) for e in n.elts]
             if all(isinstance(v, ClassV) for v in vs):
                 return ClassV([nm for v in vs for nm in v.names])
@@ -768,6 +779,11 @@ class Exec:
                 if isinstance(r, Ref) and r.t.eq(e):
                     return ExtSeq(it.n, it.arr)
                 raise Unsupported('comprehension over a sequence argument that is not the identity under the preconditions')
+        if len(n.generators) == 1 and isinstance(n.generators[0].target, ast.Name) and isinstance(n.elt, ast.Name) \
+                and n.elt.id == n.generators[0].target.id:
+            it = self.expr(n.generators[0].iter, env, heap, depth)
+            if isinstance(it, ListV) or (isinstance(it, Ref) and it.cls in ('Inlets', 'Outlets')):
+                return Opaque()          # [i for i in ins if i]: a (filtered) copy of a port list; its content is not modelled
         raise Unsupported('list comprehension')
 
 
